@@ -82,12 +82,17 @@ ChainObjs(len, pat, names, term, decoy) ==
   IN hops \o terminal \o decoys \o extras
 NoDupNames(objs) == \A i, j \in DOMAIN objs : (objs[i][1] = objs[j][1] /\ objs[i][2].name = objs[j][2].name) => i = j
 OfPkg(objs, p) == LET mine == SelectSeq(objs, LAMBDA x : x[1] = p) IN [i \in DOMAIN mine |-> mine[i][2]]
-ChainS(len, pat, names, term, decoy, rl) ==
+RevSeq(q) == [i \in DOMAIN q |-> q[Len(q) + 1 - i]]
+ChainS0(len, pat, names, term, decoy, rl) ==
   LET objs == ChainObjs(len, pat, names, term, decoy) IN
   <<SchemaOf("p", OfPkg(objs, "p") \o SupportP), SchemaOf("q", SupportQ \o OfPkg(objs, "q"))>>
   \o (IF rl THEN <<SchemaOf("r", OfPkg(objs, "r") \o SupportR)>> ELSE <<>>)
+\* rev: packages and every package's objects declared in the reverse order (targets before their aliases, q before p)
+ChainS(len, pat, names, term, decoy, rl, rev) ==
+  LET s0 == ChainS0(len, pat, names, term, decoy, rl) IN
+  IF rev THEN RevSeq([i \in DOMAIN s0 |-> [s0[i] EXCEPT !.objects = RevSeq(@)]]) ELSE s0
 ChainRecipes == {rc \in [len : 1..4, pat : {"ppp", "pqpq", "pqr", "pqqq"}, names : {"plain", "case", "same"}, term : Terms,
-                         decoy : {"none", "start", "case", "both"}, rl : BOOLEAN] :
+                         decoy : {"none", "start", "case", "both"}, rl : BOOLEAN, rev : BOOLEAN] :
                    /\ NoDupNames(ChainObjs(rc.len, rc.pat, rc.names, rc.term, rc.decoy))
                    /\ (rc.names = "same" => rc.pat = "pqr" /\ rc.len <= 2)
                    /\ (rc.pat = "ppp" => rc.decoy \in {"none", "case"})}
@@ -207,7 +212,7 @@ AddObj(Sx, p, o) == [i \in DOMAIN Sx |-> IF Sx[i].pkg = p THEN [Sx[i] EXCEPT !.o
 Added(Sx) == Len(Sx[1].objects) + Len(Sx[2].objects) + Len(Sx[3].objects) - Len(SupportP) - Len(SupportQ) - Len(SupportR)
 
 Init == /\ IF Mode = "pipeline" THEN tag \in [passes : PassLists, lang : PipeLangs] ELSE tag = Mode
-        /\ CASE Mode = "chains" -> \E rc \in ChainRecipes : S = ChainS(rc.len, rc.pat, rc.names, rc.term, rc.decoy, rc.rl)
+        /\ CASE Mode = "chains" -> \E rc \in ChainRecipes : S = ChainS(rc.len, rc.pat, rc.names, rc.term, rc.decoy, rc.rl, rc.rev)
              [] Mode = "fields" -> \E fr \in FieldRecipes : S = FieldS(fr)
              [] Mode = "cycles" -> S \in CycleSets
              [] Mode = "pipeline" -> S \in PipeSets
